@@ -10,6 +10,9 @@ def main(root):
     if a[0] == "manifest":
         from . import manifest
         sys.exit(manifest.write(root))
+    if a[0] == "design-tables":
+        from . import designmd
+        sys.exit(designmd.update(root))
     if a[0] == "list":
         for f in sorted(os.listdir(os.path.join(root, "lib/vf/props"))):
             if f.startswith("c") and f.endswith(".py"):
